@@ -231,6 +231,8 @@ pub(crate) fn check_repository<S: Open>(
     let cache = repo.cache();
     let hot_be = &repo.be_hot;
     let raw_be = repo.dbe();
+    // the backend which holds snapshot, index and tree pack files without the cache in front of it
+    let uncached_be = repo.be_hot.as_ref().unwrap_or(&repo.be_cold);
     let collector = CheckResultsCollector::default().log(true);
     if !opts.trust_cache
         && let Some(cache) = &cache
@@ -244,7 +246,7 @@ pub(crate) fn check_repository<S: Open>(
 
             let p = repo.progress_bytes(&format!("checking {file_type:?} in cache..."));
             // TODO: Make concurrency (20) customizable
-            check_cache_files(20, cache, raw_be, file_type, &p, &collector)?;
+            check_cache_files(20, cache, uncached_be, file_type, &p, &collector)?;
         }
     }
 
@@ -258,7 +260,7 @@ pub(crate) fn check_repository<S: Open>(
     // the id of a snapshot or index file is the hash of its content
     for file_type in [FileType::Snapshot, FileType::Index] {
         let p = repo.progress_spinner(&format!("checking ids of {file_type:?} files..."));
-        check_file_ids(raw_be, file_type, &collector)?;
+        check_file_ids(uncached_be, file_type, &collector)?;
         p.finish();
     }
 
@@ -282,7 +284,7 @@ pub(crate) fn check_repository<S: Open>(
         if !opts.trust_cache {
             let p = repo.progress_bytes("checking packs in cache...");
             // TODO: Make concurrency (5) customizable
-            check_cache_files(5, cache, raw_be, FileType::Pack, &p, &collector)?;
+            check_cache_files(5, cache, uncached_be, FileType::Pack, &p, &collector)?;
         }
     }
 
@@ -441,11 +443,16 @@ fn check_cache_files(
     p: &Progress,
     collector: &CheckResultsCollector,
 ) -> RusticResult<()> {
-    let files = cache.list_with_size(file_type)?;
+    let mut files = cache.list_with_size(file_type)?;
 
     if files.is_empty() {
         return Ok(());
     }
+
+    // cache files which the backend does not list (any more) are leftovers the cache removes when
+    // listing; there is nothing to compare them with
+    let listed: BTreeSet<Id> = be.list(file_type)?.into_iter().collect();
+    files.retain(|id, _| listed.contains(id));
 
     let total_size = files.values().map(|size| u64::from(*size)).sum();
     p.set_length(total_size);
